@@ -1,13 +1,84 @@
-(* Props/C01.v — basis-blade products follow the Clifford relations.  Statements only; proofs in Theory/. *)
+(* Props/C01.v — basis-blade products follow the Clifford relations.
+   Statements only; proofs in Theory/Words.v, Theory/Sign.v (name level: kingdon computes the table by
+   string manipulation on blade NAMES; a name is the list of its hex-digit values, the metric
+   m g is the signature entry of generator g).  The lift to the bit-keyed table is in Theory/SignBits.v. *)
 From Coq Require Import Permutation.
-From KV Require Import Model.All Theory.Words.
+From KV Require Import Model.All Theory.Words Theory.Sign.
+Local Open Scope Z_scope.
 
-(* parity of the swap count of _swap_blades = inversion parity of the concatenated spelling
-   relative to the target spelling; the run never raises when the target spells the result *)
+(* parity of the swap count of _swap_blades = inversion parity of the concatenated spelling relative
+   to the target spelling; the run never raises when the target spells the result *)
 Theorem C01_swap_parity : forall b1 b2 target,
-  NoDup b1 ->
-  Permutation (fst (fst (phase1 b1 b2))) target ->
+  NoDup b1 -> Permutation (fst (fst (phase1 b1 b2))) target ->
   exists sw el, swap_blades b1 b2 target = Some (sw, target, el) /\
     Z.odd sw = xorb (inv2 (b1 ++ b2)) (inv2 target).
 Proof. exact swap_blades_parity. Qed.
 Print Assumptions C01_swap_parity.
+
+(* closed form of the sign kingdon computes for spellings a, b and the table's spelling t of the
+   result blade: orientation parity x product of the metric over the common generators *)
+Theorem C01_sign_closed_form : forall (m : nat -> Z) a b t,
+  NoDup a -> NoDup b -> Permutation (sdiff a b) t ->
+  sgn_names m a b t = Some (par (xorb (inv2 (a ++ b)) (inv2 t)) * mprod m (common a b)).
+Proof. exact sgn_names_closed. Qed.
+Print Assumptions C01_sign_closed_form.
+
+(* the model's _compute_sign on names is that closed form whenever the signature lookups succeed *)
+Theorem C01_model_sign_closed_form : forall (m : nat -> Z) A a b t,
+  NoDup a -> NoDup b -> Permutation (sdiff a b) t ->
+  (forall g, In g a -> In g b -> sig_at A g = Some (m g)) ->
+  sign_names A a b t = Ok (par (xorb (inv2 (a ++ b)) (inv2 t)) * mprod m (common a b)).
+Proof. exact sign_names_closed. Qed.
+Print Assumptions C01_model_sign_closed_form.
+
+(* each basis vector squares to its signature entry (result: the scalar blade) *)
+Theorem C01_square : forall (m : nat -> Z) g, sgn_names m [g] [g] [] = Some (m g).
+Proof. exact sq. Qed.
+Print Assumptions C01_square.
+
+(* distinct basis vectors anticommute, whichever way the table spells their product *)
+Theorem C01_anticommute : forall (m : nat -> Z) g h t,
+  g <> h -> Permutation [g; h] t ->
+  exists s, (s = 1 \/ s = -1) /\ sgn_names m [g] [h] t = Some s /\ sgn_names m [h] [g] t = Some (- s).
+Proof. exact anticomm. Qed.
+Print Assumptions C01_anticommute.
+
+(* blade multiplication is associative: all triples of spellings, any spellings of the intermediate
+   and final blades, any metric (null and negative generators included) *)
+Theorem C01_assoc : forall (m : nat -> Z) a b c ab bc abc,
+  NoDup a -> NoDup b -> NoDup c ->
+  Permutation (sdiff a b) ab -> Permutation (sdiff b c) bc -> Permutation (sdiff ab c) abc ->
+  exists s1 s2 s3 s4,
+    sgn_names m a b ab = Some s1 /\ sgn_names m ab c abc = Some s2 /\
+    sgn_names m b c bc = Some s3 /\ sgn_names m a bc abc = Some s4 /\
+    s1 * s2 = s3 * s4.
+Proof. exact assoc. Qed.
+Print Assumptions C01_assoc.
+
+(* a blade named e_ij..k equals the ordered product e_i e_j .. e_k computed through the table,
+   whatever spellings the table uses for the partial products *)
+Theorem C01_named_blade_is_ordered_product : forall (m : nat -> Z) n ts,
+  NoDup n ->
+  (forall i, (i < length n)%nat -> exists t, nth_error ts i = Some t /\ Permutation (firstn (S i) n) t) ->
+  length ts = length n -> last ts [] = n ->
+  chain m [] n ts = Some 1.
+Proof. exact ordered_product. Qed.
+Print Assumptions C01_named_blade_is_ordered_product.
+
+(* a product vanishes exactly when the factors share a null generator; otherwise it is +-1 *)
+Theorem C01_nonzero_iff : forall (m : nat -> Z) a b t,
+  (forall g, m g = 1 \/ m g = -1 \/ m g = 0) ->
+  NoDup a -> NoDup b -> Permutation (sdiff a b) t ->
+  (sgn_names m a b t = Some 0 <-> exists g, In g a /\ In g b /\ m g = 0) /\
+  (~ (exists g, In g a /\ In g b /\ m g = 0) ->
+   sgn_names m a b t = Some 1 \/ sgn_names m a b t = Some (-1)).
+Proof. exact nonzero_iff. Qed.
+Print Assumptions C01_nonzero_iff.
+
+(* exchanging the factors multiplies the sign by (-1)^(|a||b| - |a n b|) *)
+Theorem C01_swap_factors : forall (m : nat -> Z) a b t s,
+  NoDup a -> NoDup b -> Permutation (sdiff a b) t ->
+  sgn_names m a b t = Some s ->
+  sgn_names m b a t = Some (par (Nat.odd (length a * length b - length (common a b))) * s).
+Proof. exact swap_sym. Qed.
+Print Assumptions C01_swap_factors.
